@@ -19,6 +19,9 @@ def texts():
     # (rewritten files start with an 18-line prologue, so the line has to lie beyond it)
     t["plain"] = "function boom(a, b) {\n" + "  a;\n\n  b;\n" * 8 + "  throw new Error('plain');\n}\n"
     t["err"] = "function boom( {\n"
+    # a byte order mark is part of the caller's text
+    t["bomplain"] = "\ufeff" + t["plain"]
+    t["bommod"] = "\ufeff" + t["modA"]
     body = "function boom(a, b) {\n  const s = a + b;\n\n  throw new Error('chained ' + s);\n}\n"
     nlines = body.count("\n") + 1
     omap = {"version": 3, "sources": ["orig.ts"], "names": [],
@@ -28,8 +31,9 @@ def texts():
     return t
 
 
-CLASSES = {"modA": "modified", "modB": "modified", "plain": "notmodified", "err": "error", "chain": "modified", "evalv": "modified"}
-THROW_LINE = {"modA": 5, "modB": 9, "plain": 26, "chain": 4 + 100, "evalv": 5}
+CLASSES = {"modA": "modified", "modB": "modified", "plain": "notmodified", "err": "error", "chain": "modified", "evalv": "modified",
+           "bomplain": "notmodified", "bommod": "modified"}
+THROW_LINE = {"modA": 5, "modB": 9, "plain": 26, "chain": 4 + 100, "evalv": 5, "bomplain": 26, "bommod": 5}
 
 
 def expected_lines(file):
@@ -98,7 +102,9 @@ def run(seed, tier, extra_cases=None, use_cache=True):
     tx = texts()
     # native results for every (text, file)
     reqs, keys = [], []
-    for v, text in tx.items():
+    for v, text in list(tx.items()) + [("nobom:" + v, t[1:]) for v, t in tx.items() if t.startswith("\ufeff")]:
+        # (the texts without their byte order mark are only table entries: should the package strip the mark before
+        # calling the native rewriter, the replay still answers and the difference shows in what the package returns)
         for f in FILES.values():
             reqs.append({"id": "%s|%s" % (v, f), "code": text, "file": f, "config": CFG})
             keys.append((text, f))
@@ -182,6 +188,7 @@ def run(seed, tier, extra_cases=None, use_cache=True):
             rid = "p%d" % n
             rec = {"ev": e["op"], "rid": rid, "file": e["file"], "version": e.get("version", ""), "threw": bool(e.get("threw")),
                    "status": str(e.get("status", "")), "same_text": bool(e.get("same_text")), "has_trailer": bool(e.get("has_trailer")),
+                   "fresh_same": bool(e.get("fresh_same")), "fresh_diff": str(e.get("fresh_diff", "")),
                    "has_hook": bool(e.get("has_hook")), "frames": [], "res_path": "", "res_line": 0, "exp_path": "", "exp_line": 0,
                    "kind": "", "line": 0}
             if e["op"] == "throw":
